@@ -1,0 +1,68 @@
+//go:build verif && linux
+
+package container
+
+import (
+	"bytes"
+	"encoding/gob"
+	"errors"
+	"syscall"
+	"time"
+
+	"github.com/criyle/go-sandbox/pkg/unixsocket"
+)
+
+// Verification hooks (build tag verif): exported views of unexported functions.
+
+// VerifConvert is convertReply (container side), a gob round trip of the reply (the transport's
+// field mapping) and convertReplyResult (host side).
+func VerifConvert(ws uint32, waitErr bool) (status int, exitStatus int, errMsg string) {
+	ret := waitPidResult{WaitStatus: syscall.WaitStatus(ws)}
+	if waitErr {
+		ret.Err = errors.New("wait4 failed")
+	}
+	rep := convertReply(ret)
+	var buf bytes.Buffer
+	var back reply
+	if err := gob.NewEncoder(&buf).Encode(rep); err != nil {
+		return -1, 0, "gob encode: " + err.Error()
+	}
+	if err := gob.NewDecoder(&buf).Decode(&back); err != nil {
+		return -1, 0, "gob decode: " + err.Error()
+	}
+	now := time.Now()
+	r := convertReplyResult(back, now, now, nil)
+	return int(r.Status), r.ExitStatus, r.Error
+}
+
+// VerifSocket is the gob-framed control socket (container.socket) for two-ended tests.
+type VerifSocket struct{ s *socket }
+
+func VerifNewSocket(s *unixsocket.Socket) *VerifSocket { return &VerifSocket{newSocket(s)} }
+
+// VerifMsg is a message of one of the two protocol types.
+func (v *VerifSocket) SendCmd(kind int, paths []string, fds []int) error {
+	c := cmd{Cmd: cmdType(kind)}
+	for _, p := range paths {
+		c.OpenCmd = append(c.OpenCmd, OpenCmd{Path: p})
+	}
+	return v.s.SendMsg(c, unixsocket.Msg{Fds: fds})
+}
+func (v *VerifSocket) RecvCmd() (kind int, paths []string, fds []int, err error) {
+	var c cmd
+	m, err := v.s.RecvMsg(&c)
+	for _, o := range c.OpenCmd {
+		paths = append(paths, o.Path)
+	}
+	return int(c.Cmd), paths, m.Fds, err
+}
+func (v *VerifSocket) SendReply(batch []string, fds []int) error {
+	return v.s.SendMsg(reply{BatchErrors: batch}, unixsocket.Msg{Fds: fds})
+}
+func (v *VerifSocket) RecvReply() (batch []string, fds []int, err error) {
+	var r reply
+	m, err := v.s.RecvMsg(&r)
+	return r.BatchErrors, m.Fds, err
+}
+
+const VerifBufferSize = bufferSize
